@@ -1144,6 +1144,7 @@ void ICACHE_FLASH_ATTR supla_esp_parse_request(TrivialHttpParserVars *pVars,
       if (len - a >= 4 && memcmp(header_end, &pdata[a], 4) == 0) {
         pVars->step = STEP_PARSE_VARS;
         p += 3;
+        break;
       }
     }
   }
